@@ -1357,6 +1357,181 @@ fn crash_like_case(mode: &str, seed: u64, idx: u64, thorough: bool, stats: &mut 
     res
 }
 
+// ---------------------------------------------------------------------------------------------
+// audit mode: the shim's view of a run is compared with strace's view of the same (deterministic) program
+
+/// Mutating system calls strace is asked to show. Anything in this list that touches the database
+/// directory and has no counterpart in the shim's trace is a blind spot of the shim.
+const AUDIT_SYSCALLS: &str = "open,openat,openat2,creat,write,pwrite64,writev,pwritev,pwritev2,ftruncate,truncate,fsync,fdatasync,sync_file_range,syncfs,rename,renameat,renameat2,unlink,unlinkat,mkdir,mkdirat,rmdir,link,linkat,symlink,symlinkat,fallocate,copy_file_range,sendfile,splice,io_uring_setup,mmap";
+
+fn audit_case(seed: u64, idx: u64, thorough: bool, stats: &mut Counts) -> Result<String, Deviation> {
+    let plan = gen_program("crash", seed, idx, thorough);
+    // (1) the run under the shim
+    let run = run_child(&plan, &[], false, false)?;
+    rm_rf(&run.real_dir);
+    if run.status != Some(0) {
+        return Err(Deviation::new("child:deviation", format!("the recorded execution failed: {}", run.stdout.chars().take(300).collect::<String>())));
+    }
+    let norm = |p: &str| -> String {
+        p.split('/').map(|c| if c.starts_with(".tmp") { ".tmp*" } else { c }).collect::<Vec<_>>().join("/")
+    };
+    // per (kind, path): count and bytes
+    let mut shim: BTreeMap<(String, String), (u64, u64)> = BTreeMap::new();
+    for r in &run.recs {
+        if r.result < 0 {
+            continue;
+        }
+        let name = match r.kind {
+            K_WRITE => "write",
+            K_TRUNCATE => "ftruncate",
+            K_FSYNC => "fsync",
+            K_FDATASYNC => "fdatasync",
+            K_RENAME => "rename",
+            K_UNLINK => "unlink",
+            K_MKDIR => "mkdir",
+            K_RMDIR => "rmdir",
+            K_LINK => "link",
+            _ => continue,
+        };
+        let rel = norm(r.p1.strip_prefix(&run.root).unwrap_or(&r.p1));
+        let e = shim.entry((name.to_string(), rel)).or_insert((0, 0));
+        e.0 += 1;
+        if r.kind == K_WRITE {
+            e.1 += r.result as u64;
+        }
+    }
+    // (2) the same program under strace, without the shim
+    let scratch = fresh_dir("audit");
+    std::fs::create_dir_all(&scratch).map_err(|e| Deviation::new("inconclusive:io", format!("{e}")))?;
+    let dbdir = scratch.join("db");
+    let prog = scratch.join("program.txt");
+    std::fs::write(&prog, program_to_text(&plan.ops)).map_err(|e| Deviation::new("inconclusive:io", format!("{e}")))?;
+    let exe = std::env::current_exe().expect("exe");
+    let out_prefix = scratch.join("st");
+    let st = Command::new("strace")
+        .args(["-ff", "-y", "-qq", "-s", "0", "-e", &format!("trace={AUDIT_SYSCALLS}"), "-o"])
+        .arg(&out_prefix)
+        .arg(&exe)
+        .arg("trace-child")
+        .arg("--program")
+        .arg(&prog)
+        .arg("--dir")
+        .arg(&dbdir)
+        .arg("--front")
+        .arg(plan.front.to_string())
+        .arg("--lz4")
+        .arg(u8::from(plan.lz4).to_string())
+        .arg("--manual")
+        .arg(u8::from(plan.manual).to_string())
+        .env_remove("LD_PRELOAD")
+        .env("FJV_SCRATCH", scratch.join("childscratch"))
+        .stdout(Stdio::piped())
+        .stderr(Stdio::null())
+        .spawn()
+        .map_err(|e| Deviation::new("inconclusive:no-strace", format!("{e}")))?;
+    let (code, _out) = wait_with_timeout(st, 300)?;
+    if code != Some(0) {
+        rm_rf(&scratch);
+        return Err(Deviation::new("inconclusive:strace-run", format!("the program under strace ended with {code:?}")));
+    }
+    let root = dbdir.to_string_lossy().to_string();
+    let mut seen: BTreeMap<(String, String), (u64, u64)> = BTreeMap::new();
+    let mut unmodelled: BTreeMap<String, u64> = BTreeMap::new();
+    let mut lines = 0u64;
+    if let Ok(rd) = std::fs::read_dir(&scratch) {
+        for e in rd.flatten() {
+            if !e.file_name().to_string_lossy().starts_with("st.") {
+                continue;
+            }
+            let text = std::fs::read_to_string(e.path()).unwrap_or_default();
+            for line in text.lines() {
+                if !line.contains(&root) {
+                    continue;
+                }
+                lines += 1;
+                let Some(open) = line.find('(') else { continue };
+                let call = line[..open].trim();
+                let Some(eq) = line.rfind(" = ") else { continue };
+                let ret = line[eq + 3..].trim();
+                if ret.starts_with('-') || ret.starts_with('?') {
+                    continue; // failed call
+                }
+                let retnum: u64 = ret.split(|c: char| !c.is_ascii_digit()).next().and_then(|x| x.parse().ok()).unwrap_or(0);
+                // first path under the root mentioned in the arguments (fd annotation <path> or string argument "path")
+                let args = &line[open + 1..eq];
+                let Some(pos) = args.find(&root) else { continue };
+                let tail = &args[pos..];
+                let end = tail.find(['>', '"']).unwrap_or(tail.len());
+                let rel = norm(&tail[root.len()..end]);
+                let name = match call {
+                    "write" | "pwrite64" | "writev" | "pwritev" | "pwritev2" => "write",
+                    "ftruncate" | "truncate" => "ftruncate",
+                    "fsync" => "fsync",
+                    "fdatasync" => "fdatasync",
+                    "rename" | "renameat" | "renameat2" => "rename",
+                    "unlink" => "unlink",
+                    "unlinkat" => {
+                        if args.contains("AT_REMOVEDIR") {
+                            "rmdir"
+                        } else {
+                            "unlink"
+                        }
+                    }
+                    "mkdir" | "mkdirat" => "mkdir",
+                    "rmdir" => "rmdir",
+                    "link" | "linkat" => "link",
+                    "open" | "openat" | "openat2" | "creat" => continue, // creation is compared through the files that exist afterwards
+                    "mmap" => {
+                        if args.contains("MAP_SHARED") && args.contains("PROT_WRITE") {
+                            *unmodelled.entry("mmap(MAP_SHARED, PROT_WRITE)".to_string()).or_insert(0) += 1;
+                        }
+                        continue;
+                    }
+                    other => {
+                        *unmodelled.entry(other.to_string()).or_insert(0) += 1;
+                        continue;
+                    }
+                };
+                let e2 = seen.entry((name.to_string(), rel)).or_insert((0, 0));
+                e2.0 += 1;
+                if name == "write" {
+                    e2.1 += retnum;
+                }
+            }
+        }
+    }
+    rm_rf(&scratch);
+    stats.add("audit.strace_lines_on_db_paths", lines);
+    if lines == 0 {
+        return Err(Deviation::new("inconclusive:strace-empty", "strace produced no line mentioning the database directory"));
+    }
+    if let Some((call, n)) = unmodelled.iter().next() {
+        return Err(Deviation::new(
+            "inconclusive:shim-blind-spot",
+            format!("program [{}]: strace shows {n} successful `{call}` call(s) on the database directory, which the shim does not model", plan.desc),
+        ));
+    }
+    // table / blob / manifest files embed timestamps but their write pattern is the same; compare counts and bytes
+    let mut diffs = Vec::new();
+    let keys: BTreeSet<&(String, String)> = shim.keys().chain(seen.keys()).collect();
+    for k in keys {
+        let a = shim.get(k).copied().unwrap_or((0, 0));
+        let b = seen.get(k).copied().unwrap_or((0, 0));
+        if a != b && diffs.len() < 6 {
+            diffs.push(format!("{} {}: shim {} call(s) / {} B, strace {} call(s) / {} B", k.0, k.1, a.0, a.1, b.0, b.1));
+        }
+    }
+    if !diffs.is_empty() {
+        return Err(Deviation::new(
+            "inconclusive:shim-audit-mismatch",
+            format!("program [{}]: the shim's trace and strace disagree: {}", plan.desc, diffs.join("; ")),
+        ));
+    }
+    stats.inc("audit.programs_agree");
+    stats.add("audit.mutating_calls_compared", seen.values().map(|v| v.0).sum());
+    Ok(format!("{} | strace and the shim agree on {} (call, file) classes", plan.desc, seen.len()))
+}
+
 pub(crate) fn kind_name(k: u32) -> &'static str {
     match k {
         K_OPEN_CREATE => "create",
@@ -1685,6 +1860,8 @@ pub fn main(args: &Args) -> i32 {
         let res = catch_unwind(AssertUnwindSafe(|| {
             if mode == "fault" {
                 fault_case(seed, idx, thorough, &mut stats)
+            } else if mode == "audit" {
+                audit_case(seed, idx, thorough, &mut stats)
             } else {
                 crash_like_case(&mode, seed, idx, thorough, &mut stats, &mut soft)
             }
@@ -1725,7 +1902,7 @@ pub fn main(args: &Args) -> i32 {
         }
         match res {
             Ok(desc) => {
-                let n = stats.get("images.verified") + stats.get("fault.fired");
+                let n = stats.get("images.verified") + stats.get("fault.fired") + stats.get("audit.programs_agree");
                 emit(&J::obj(vec![
                     ("t", J::s("case")),
                     ("idx", J::U(idx)),
